@@ -41,6 +41,11 @@ PIPE = {"name": "user", "priority": 10, "transformations": [
     {"id": "boom", "type": "rule_failure", "message": "x", "rule_conditions": [{"type": "logsource", "category": "fail"}]},
     # a strict mapping check for rules of one log source: which fields count as mapped is bookkeeping of the rule at hand only
     {"id": "strict", "type": "strict_field_mapping_failure", "rule_conditions": [{"type": "logsource", "category": "strict"}]},
+    # a nested pipeline with a conditional state of its own and an item gated by it: every rule starts the nest from a clean state
+    {"id": "nst", "type": "nest", "items": [
+        {"id": "nst_set", "type": "set_state", "key": "nk", "val": "NV", "rule_conditions": [{"type": "logsource", "category": "withstate"}]},
+        {"id": "nst_suf", "type": "field_name_suffix", "suffix": "_N", "rule_conditions": [{"type": "processing_state", "key": "nk", "val": "NV"}],
+         "field_name_conditions": [{"type": "include_fields", "fields": ["h"]}]}]},
     {"id": "after", "type": "field_name_suffix", "suffix": "_S", "rule_conditions": [{"type": "processing_state", "key": "k", "val": "KV"}],
      "field_name_conditions": [{"type": "include_fields", "fields": ["g"]}]},
 ], "postprocessing": [{"id": "pp", "type": "template", "template": "{{ query }} /post:k={{ pipeline.state.get('k') }},bk={{ pipeline.state.get('bk') }},applied={{ pipeline.applied_ids|sort|join('+') }},vars={{ pipeline.vars|dictsort|join('+') }}"},
